@@ -324,6 +324,30 @@ def line_cases(sizes, modes, lags, first_id=1):
     return cases
 
 
+TOL_STIFF_CASE = 1e-6
+
+
+def line_special_cases(first_id):
+    """magnitudes: (a) a state whose stationary probability is ~5e-9 (every other state holds 1.4e7 self-counts): the
+    all-pairs table has a column of passage times ~1e9 that must still satisfy the first-step equations; (b) a ladder
+    climbed against a 4:1 drift over 16 states: committors from ~1e-9 next to the source to 1 - 1e-9 next to the sink,
+    none of them 0 or 1"""
+    cases = []
+    n = 6
+    rare = dict(n=n, wpat=[1], spat=[14000000], wov=[], sov=[(n, 0)], pscale=(1, 1))
+    cases.append(dict(rare, mode="mfpt_cols", src=set(), snk=set(), cols={1, n - 1, n}, lag=(1, 1)))
+    cases.append(dict(rare, mode="mfpt_sinks", src=set(), snk={n}, cols=set(), lag=(5, 2)))
+    cases.append(dict(rare, mode="committor", src={1}, snk={n}, cols=set(), lag=(1, 1)))
+    n = 16
+    drift = dict(n=n, wpat=[1], spat=[0], wov=[(k, 4 ** (k - 1)) for k in range(1, n)], sov=[], pscale=(1, 1))
+    cases.append(dict(drift, mode="committor", src={1}, snk={n}, cols=set(), lag=(1, 1)))
+    cases.append(dict(drift, mode="committor", src={n}, snk={1, 2}, cols=set(), lag=(1, 1)))
+    # (no mfpt mode for the ladder: its prefix sums leave the 32-bit range LineChain!RangeOK guards)
+    for k, c in enumerate(cases):
+        c["id"] = first_id + k
+    return cases
+
+
 def _tla_seq(x):
     return "<<" + ", ".join(_tla_seq(y) if isinstance(y, (list, tuple)) else str(int(y)) for y in x) + ">>"
 
@@ -372,7 +396,7 @@ def _line_jobs(ctx, d):
         mod = line_module(d, "MCLine%d" % n, cases)
         jobs.append(dict(module=mod, cfg=os.path.basename(cfg), cwd=d, workers=1, timeout=1800, java_opts=LINE_JAVA,
                          label="line chains n=%d (%d cases), check+emit" % (n, len(cases))))
-    mod = line_module(d, "MCLineSmall", [], small_ns=LINE_SMALL[ctx.tier], modes=LINE_MODES, lags=LAGS[:2])
+    mod = line_module(d, "MCLineSmall", line_special_cases(nid), small_ns=LINE_SMALL[ctx.tier], modes=LINE_MODES, lags=LAGS[:2])
     jobs.append(dict(module=mod, cfg=os.path.basename(cfg), cwd=d, workers=1, timeout=1800, java_opts=LINE_JAVA,
                      coverage=True, label="line chains n in %s, every placement, check+emit+action coverage"
                      % (list(LINE_SMALL[ctx.tier]),)))
@@ -450,6 +474,9 @@ def _replay_line_case(c):
     snk = [x - 1 for x in c["snk"]]
     lag = c["lag"][0] / c["lag"][1]
     large = n > 64
+    # a chain whose self-counts exceed its edge weights 10^6 times: the linear systems the real code solves have a
+    # condition number of that order, and so has the comparison (an inf, a 0 or a 1 in the wrong place is still caught)
+    ctol = TOL_STIFF_CASE if max(c["s"]) >= 10 ** 6 * max(1, min(x for x in c["w"][:n - 1])) else None
     call = _Caller()
     names = c.get("containers") or (LINE_ALLPAIRS_CONTAINERS if mode == "mfpt_cols" else LINE_CONTAINERS)
     if mode == "committor":
@@ -458,20 +485,20 @@ def _replay_line_case(c):
         m, pops = br_vec(c["m"]), br_vec(c["pi"])
     else:
         cv, pops = [br_vec(v) for v in c["cv"]], br_vec(c["pi"])
-        tol = TOL_ALLPAIRS_LARGE if large else TOL
+        tol = ctol or (TOL_ALLPAIRS_LARGE if large else TOL)
     for ci, (cont, M) in enumerate(line_containers(T, names)):
         fname, form = FORMS[(c["id"] + ci) % len(FORMS)]
         tag = "n=%d %s" % (n, fname)
         if mode == "committor":
             f_src, f_snk = form(src), form(snk)
-            call("committors", cont, tag, lambda: tpt.committors(M, f_src, f_snk), [M, f_src, f_snk], q, scale=1.0)
+            call("committors", cont, tag, lambda: tpt.committors(M, f_src, f_snk), [M, f_src, f_snk], q, scale=1.0, tol=ctol)
         elif mode == "mfpt_sinks":
             f_snk = form(snk)
             call("mfpts-sinks", cont, tag + " lag=%s pops given" % lag,
-                 lambda: tpt.mfpts(M, sinks=f_snk, populations=pops, lagtime=lag), [M, f_snk, pops], m, scale=lag)
+                 lambda: tpt.mfpts(M, sinks=f_snk, populations=pops, lagtime=lag), [M, f_snk, pops], m, scale=lag, tol=ctol)
             if cont == "dense" or not large:
                 call("mfpts-sinks", cont, tag + " lag=%s pops=None" % lag,
-                     lambda: tpt.mfpts(M, sinks=f_snk, lagtime=lag), [M, f_snk], m, scale=lag)
+                     lambda: tpt.mfpts(M, sinks=f_snk, lagtime=lag), [M, f_snk], m, scale=lag, tol=ctol)
         else:
             chk = lambda got: _columns_mismatch(got, c["cols"], cv, n, tol)     # noqa: E731
             call("mfpts-all", cont, "n=%d lag=%s pops given" % (n, lag),
